@@ -433,7 +433,12 @@ var lengthsSCION = []int{0, 1, 47, 48, 49, 52, 75, 76, 77, 100, 1024, 1300}
 func TestExhaustiveGridSCION(t *testing.T) {
 	transport = "scion"
 	defer func() { transport = "ip" }()
+	m0 := mixedFamilies
 	gridBody(t, recGridS, lengthsSCION)
+	recGridS.Count(0, "probes-with-source-and-destination-host-of-different-families")
+	for i := m0; i < mixedFamilies; i++ {
+		recGridS.Label("probes-with-source-and-destination-host-of-different-families")
+	}
 }
 
 func gridBody(t *testing.T, recGrid *ev.Recorder, lengths []int) {
@@ -559,7 +564,11 @@ var recRndS = ev.New("c09/random-headers-scion", "as c09/random-headers, sent to
 func TestPropRandomProbesSCION(t *testing.T) {
 	transport = "scion"
 	defer func() { transport = "ip" }()
+	m0 := mixedFamilies
 	randomBody(t, recRndS, 600, 6000)
+	for i := m0; i < mixedFamilies; i++ {
+		recRndS.Label("probes-with-source-and-destination-host-of-different-families")
+	}
 }
 
 func randomBody(t *testing.T, recRnd *ev.Recorder, nq, nt int) {
